@@ -105,6 +105,11 @@ fn extract_players(server_vars: &mut HashMap<String, String>, players_maximum: u
     let mut players_data: Vec<HashMap<String, String>> =
         Vec::with_capacity((players_maximum as usize).min(server_vars.len()));
 
+    // Every player has at least one entry, so a player's index is always below the number of
+    // entries.
+    let entries = server_vars.len();
+    let mut index_out_of_range = false;
+
     server_vars.retain(|key, value| {
         let split: Vec<&str> = key.split('_').collect();
 
@@ -128,6 +133,11 @@ fn extract_players(server_vars: &mut HashMap<String, String>, players_maximum: u
             return true;
         }
 
+        if id >= entries {
+            index_out_of_range = true;
+            return true;
+        }
+
         if id >= players_data.len() {
             let others = vec![HashMap::new(); id - players_data.len() + 1];
             players_data.extend_from_slice(&others);
@@ -136,6 +146,10 @@ fn extract_players(server_vars: &mut HashMap<String, String>, players_maximum: u
 
         false
     });
+
+    if index_out_of_range {
+        return Err(GDErrorKind::PacketBad.context("Player index out of range"));
+    }
 
     let mut players: Vec<Player> = Vec::with_capacity(players_data.len());
 
